@@ -89,8 +89,9 @@ func (mem *Mempool) Size() int {
 // Remove all transactions from mempool and cache
 func (mem *Mempool) Flush() {
 	mem.Lock()
-	mem.cache.Reset()
+	// forget the flushed txs only: what committed blocks contained stays known
 	for e := mem.txs.Front(); e != nil; e = e.Next() {
+		mem.cache.Remove(e.Value.(*types.TxInPool).Tx)
 		mem.txs.Remove(e)
 		e.DetachPrev()
 	}
@@ -164,6 +165,10 @@ func (mem *Mempool) Update(height int64, txs []types.Tx) {
 	atomic.StoreInt64(&mem.height, height)
 
 	mem.Lock()
+	// committed txs stay in (or enter) the duplicate cache, so that they are not accepted and offered again
+	for _, tx := range txs {
+		mem.cache.Push(tx)
+	}
 	// Remove transactions that are already in txs, also re-run txs through filters
 	mem.refreshMempoolTxs(txsMap)
 	mem.Unlock()
@@ -196,7 +201,6 @@ func (mem *Mempool) refreshMempoolTxs(blockTxsMap map[string]struct{}) {
 		if _, ok := blockTxsMap[string(memTx.Tx)]; ok {
 			mem.txs.Remove(e)
 			e.DetachPrev()
-			mem.cache.Remove(memTx.Tx)
 		} else if err := mem.recheckTx(memTx.Tx); err != nil {
 			mem.txs.Remove(e)
 			e.DetachPrev()
